@@ -90,20 +90,16 @@ def uniqM (key : α → Option κ) (eq : κ → κ → Bool) : List α → Optio
 
 /-! ### two-pointer merges of `sets.rs`
 
-The heads of both lists are the fetched elements `av`/`bv`; their keys are evaluated whenever an
-element is fetched (so a failing key of a head is an error even if it is never compared), the
-comparison only while both sides are non-empty. -/
+Each side is a position in its array (`MergeSide`).  The key of the current element is evaluated
+when it is first compared, i.e. only while BOTH sides still have an element (`compare_heads`); what
+is left of one side when the other runs out is appended (`rest()`: union, diff) or dropped (inter,
+diff) without calling the key function — as `acc + a[i:]` / `acc + b[j:]` in the documented
+definitions.  (A key is computed once per element; for a pure key function that is not
+observable, so the model simply calls `key` at each comparison.) -/
 
 def unionM (key : α → Option κ) (cmp : κ → κ → Option Ordering) : List α → List α → Option (List α)
-  | [], [] => some []
-  | x :: as, [] =>
-    match key x with
-    | none => none
-    | some _ => (unionM key cmp as []).map (x :: ·)
-  | [], y :: bs =>
-    match key y with
-    | none => none
-    | some _ => (unionM key cmp [] bs).map (y :: ·)
+  | [], bs => some bs
+  | x :: as, [] => some (x :: as)
   | x :: as, y :: bs =>
     match key x, key y with
     | some kx, some ky =>
@@ -116,9 +112,8 @@ def unionM (key : α → Option κ) (cmp : κ → κ → Option Ordering) : List
 termination_by a b => a.length + b.length
 
 def interM (key : α → Option κ) (cmp : κ → κ → Option Ordering) : List α → List α → Option (List α)
-  | [], [] => some []
-  | x :: _, [] => (key x).map (fun _ => [])
-  | [], y :: _ => (key y).map (fun _ => [])
+  | [], _ => some []
+  | _ :: _, [] => some []
   | x :: as, y :: bs =>
     match key x, key y with
     | some kx, some ky =>
@@ -131,12 +126,8 @@ def interM (key : α → Option κ) (cmp : κ → κ → Option Ordering) : List
 termination_by a b => a.length + b.length
 
 def diffM (key : α → Option κ) (cmp : κ → κ → Option Ordering) : List α → List α → Option (List α)
-  | [], [] => some []
-  | x :: as, [] =>
-    match key x with
-    | none => none
-    | some _ => (diffM key cmp as []).map (x :: ·)
-  | [], y :: _ => (key y).map (fun _ => [])
+  | [], _ => some []
+  | x :: as, [] => some (x :: as)
   | x :: as, y :: bs =>
     match key x, key y with
     | some kx, some ky =>
@@ -182,9 +173,11 @@ def bsearch (key : α → Option κ) (cmp : κ → κ → Option Ordering) (arr 
 
 def setMemberM (key : α → Option κ) (cmp : κ → κ → Option Ordering) (x : α) (arr : List α) :
     Option Bool :=
-  match key x with
-  | none => none
-  | some kx => bsearch key cmp arr.toArray kx (arr.length + 1) 0 arr.length
+  if arr.isEmpty then some false          -- `if high == 0 { return Ok(false) }`: `x` is not looked at
+  else
+    match key x with
+    | none => none
+    | some kx => bsearch key cmp arr.toArray kx (arr.length + 1) 0 arr.length
 
 def setMemberSpec (k : α → κ) (ord : κ → κ → Ordering) (x : α) (arr : List α) : Bool :=
   arr.any (fun y => keq k ord y x)
@@ -377,6 +370,7 @@ def fn1 (name : String) (x : V) : Option V :=
   | "skipA" => if eqV x (.str "a") then some .null else some x
   | "twice" => match x with | .num n => some (.num (n * 2)) | _ => none
   | "lit" => some (.str "k")
+  | "arr1" => some (.arr [.num 1])                             -- function(x) [1]
   | _ => none
 
 def showInt (n : Int) : String := toString n
@@ -395,6 +389,10 @@ def fn2 (name : String) (a b : V) : Option V :=
       | .arr x, .arr y => some (.arr (x ++ y))
       | _, _ => none
   | "fst" => some a
+  | "snd" => some b                                            -- function(a,b) b
+  | "inc1" => match a with | .num n => some (.num (n + 1)) | _ => none      -- function(a,b) a+1 (numbers)
+  | "inc2" => match b with | .num n => some (.num (n + 1)) | _ => none      -- function(a,b) b+1 (numbers)
+  | "const7" => some (.num 7)                                  -- function(a,b) 7
   | _ => none
 
 /-- key function argument: `none` = omitted or literally `function(x) x` (`KeyF::Identity`) -/
